@@ -1,5 +1,7 @@
 SPECIFICATION Spec
-CONSTANTS MaxItems = 3
+CONSTANTS
+  MaxItems = 3
+  SetSrcOn = {1, 2, 3, 4}
 VIEW View
 INVARIANTS EmitState
 CHECK_DEADLOCK FALSE
